@@ -293,3 +293,88 @@ def v_interp_freq(c, dims):
         c.ensure("one_frequency_in_the_result", A.ext(out.extent("freq")) == 1)
     else:
         c.ensure("one_frequency_in_the_result", out.sizes["freq"] == 1)
+
+
+@contract(PT + "bbox", props=["C09"], name="small_grid", scenarios=[{"nf": 2, "nd": 3}])
+def v_bbox_symbolic(c, nf, nd):
+    """BOUNDED IN SHAPE (2 frequencies x 3 directions, two boxes), all spectral values, all box limits:
+    either the boxes overlap (open interiors intersect) and ValueError is raised, or each box
+    receives exactly the bins inside it, the remainder goes to the last partition, and for boxes that
+    share no bin the partitions are disjoint and add up to the input"""
+    from engine.pyse import arrays as A
+    from engine.pyse.core import Sym
+
+    m = c.m
+    if not m.symbolic:
+        return
+    th0 = c.real("th0", 0, 100)
+    tharr = A.Arr((Sym(nd),), lambda idx: th0 + 120.0 * idx[0], "f")
+    da = c.spectrum(("pos", "freq", "dir"), fixed={"freq": nf, "dir": nd}, dir_coord=tharr)
+    V = View(da)
+    lim = {}
+    for b in (1, 2):
+        for k in ("fmin", "fmax", "dmin", "dmax"):
+            lim[(b, k)] = c.real(f"{k}{b}", 0, 400, strict=True)
+    boxes = [{k: lim[(b, k)] for k in ("fmin", "fmax", "dmin", "dmax")} for b in (1, 2)]
+    for b in (1, 2):
+        c.assume(lim[(b, "dmin")] < lim[(b, "dmax")])
+    ov = m.and_(m.ite(lim[(1, "fmin")] >= lim[(2, "fmin")], lim[(1, "fmin")], lim[(2, "fmin")]) <
+                m.ite(lim[(1, "fmax")] <= lim[(2, "fmax")], lim[(1, "fmax")], lim[(2, "fmax")]),
+                m.ite(lim[(1, "dmin")] >= lim[(2, "dmin")], lim[(1, "dmin")], lim[(2, "dmin")]) <
+                m.ite(lim[(1, "dmax")] <= lim[(2, "dmax")], lim[(1, "dmax")], lim[(2, "dmax")]))
+    bad_f = m.or_(lim[(1, "fmin")] >= lim[(1, "fmax")], lim[(2, "fmin")] >= lim[(2, "fmax")])
+    raised = False
+    try:
+        out = c.call(da.spec.partition, boxes)
+    except ValueError:
+        raised = True
+    if raised:
+        c.ensure("value_error_only_for_overlapping_or_empty_boxes", m.or_(ov, bad_f))
+        return
+    c.ensure("overlapping_boxes_rejected", m.not_(ov))
+    W = View(out.isel(part=0)), View(out.isel(part=1)), View(out.isel(part=2))
+    pos = c.position(V)
+    for i in range(nf):
+        for j in range(nd):
+            # output coordinates are sorted; with this grid sorting is the identity
+            e = V.E(pos, i, j)
+            ins = [m.and_(V.f(i) >= lim[(b, "fmin")], V.f(i) <= lim[(b, "fmax")], V.th(j) >= lim[(b, "dmin")], V.th(j) <= lim[(b, "dmax")])
+                   for b in (1, 2)]
+            for b in (0, 1):
+                c.ensure_eq("box_gets_exactly_its_bins", W[b].E(pos, i, j), m.ite(ins[b], e, 0.0))
+            c.ensure_eq("remainder_in_last_part", W[2].E(pos, i, j), m.ite(m.or_(ins[0], ins[1]), 0.0, e))
+
+
+@contract(PT + "ptm4", props=["C09"], name="small_grid", scenarios=[{"nf": 2, "nd": 3}], uses=[WAVENUMA])
+def v_ptm4_symbolic(c, nf, nd):
+    """BOUNDED IN SHAPE (2 x 3 bins), all values, symbolic leading dimension, winds and depths: a
+    bin goes to the wind sea exactly when celerity(f, depth) <= agefac * wspd * cos(dir - wdir), to the
+    swell otherwise; partitions disjoint and adding up to the input"""
+    from engine.pyse import arrays as A, xrs as X
+    from engine.pyse.core import Sym
+
+    m = c.m
+    if not m.symbolic:
+        return
+    th0 = c.real("th0", 0, 100)
+    tharr = A.Arr((Sym(nd),), lambda idx: th0 + 120.0 * idx[0], "f")
+    f0 = c.real("f0", 0.03, 0.2)
+    farr = A.Arr((Sym(nf),), lambda idx: f0 + 0.05 * idx[0], "f")
+    da = c.spectrum(("pos", "freq", "dir"), fixed={"freq": nf, "dir": nd}, dir_coord=tharr, freq_coord=farr)
+    V = View(da)
+    npos = da.extent("pos")
+    pc = da.coords["pos"]
+    wspd = X.DA(c.array("wspd", (npos,), nonneg=True), dims=("pos",), coords={"pos": pc})
+    wdir = X.DA(c.array("wdir", (npos,)), dims=("pos",), coords={"pos": pc})
+    dpt = X.DA(c.array("dpt", (npos,), positive=True), dims=("pos",), coords={"pos": pc})
+    agefac = c.real("agefac", 0.5, 3)
+    out = c.call(da.spec.partition, wspd, wdir, dpt, agefac)
+    c.ensure_true("two_parts", A.conc(out.extent("part")) == 2, str(out.shape))
+    sea, swl = View(out.isel(part=0)), View(out.isel(part=1))
+    pos = c.position(V)
+    for i in range(nf):
+        for j in range(nd):
+            e = V.E(pos, i, j)
+            rule = s_celerity(m, V.f(i), dpt.at(pos)) <= agefac * wspd.at(pos) * m.cos((m.pi / 180) * (V.th(j) - wdir.at(pos)))
+            c.ensure_eq("sea_iff_celerity_not_above_wind_component", sea.E(pos, i, j), m.ite(rule, e, 0.0))
+            c.ensure_eq("swell_is_the_complement", swl.E(pos, i, j), m.ite(rule, 0.0, e))
